@@ -49,3 +49,25 @@ build_bin() {
     return 1
   fi
 }
+
+# build_fuzz <target>: cargo-fuzz (libFuzzer) build of one target of engine/fuzz against $REPO (nightly toolchain,
+# no sanitizer: asn1rs has no unsafe code; coverage instrumentation only). Binary: $TARGET_DIR/fuzz/x86_64-unknown-linux-gnu/release/<target>
+build_fuzz() {
+  local target="$1"
+  gen_manifest || return 1
+  local tmp="$ENGINE/fuzz/Cargo.toml.tmp"
+  sed "s#@REPO@#$REPO#g" "$ENGINE/fuzz/Cargo.toml.in" > "$tmp" || return 1
+  if ! cmp -s "$tmp" "$ENGINE/fuzz/Cargo.toml"; then mv "$tmp" "$ENGINE/fuzz/Cargo.toml"; else rm -f "$tmp"; fi
+  [ -f "$ENGINE/fuzz/Cargo.lock" ] || cp "$ENGINE/Cargo.lock" "$ENGINE/fuzz/Cargo.lock" || return 1
+  local log="$TARGET_DIR/build-fuzz-$target.log"
+  (
+    flock 9
+    cd "$ENGINE" && CARGO_TARGET_DIR="$TARGET_DIR/fuzz" cargo +nightly fuzz build --fuzz-dir "$ENGINE/fuzz" --sanitizer none "$target" >"$log" 2>&1
+  ) 9>"$TARGET_DIR/.verif-fuzz-build.lock"
+  local rc=$?
+  if [ $rc -ne 0 ]; then
+    echo "FUZZ BUILD FAILED for $target (exit $rc); see $log" >&2
+    tail -n 40 "$log" >&2
+    return 1
+  fi
+}
